@@ -43,7 +43,11 @@ def gen(tier, seed, stream, k):
     comp = rnd.choice(["", "", ".gz", ".bz2"])
     ext = {"LP": ".lp", "MPS": ".mps"}[fmt]
     useL = fmt == "LP" and rnd.random() < 0.4
-    fname = "in%d%s%s" % (k, ".txt" if useL and not comp else ext, comp)
+    stem = "in%d" % k
+    if stream == "valid" and rnd.random() < 0.15:
+        # readable is readable: blanks, extra dots and bytes above 127 in the name must not matter
+        stem = rnd.choice(["my in%d", "mod\u00e8le%d", "a.b.in%d", "in%d.v2", " in%d"]) % k
+    fname = "%s%s%s" % (stem, ".txt" if useL and not comp else ext, comp)
     data = text.encode()
     if stream == "mutant":
         data = mutate.to_bytes(mutate.mutate(text, rnd))
@@ -128,9 +132,12 @@ def judge_one(g, bindir, wd):
     sol = "out%d.sol%s" % (g["k"], g["solext"])
     if g["stream"] == "valid" and g["k"] % 40 == 7:
         # a solution file that cannot be created: whatever esolver answers, it must not crash
-        rc, err, san = run_esolver(bindir, g["flavour"], wd, list(g["opts"]) + ["-O", os.path.join(wd, "no", "such", "dir", sol), g["fname"]])
+        xb = ["-b", "outx%d.bas" % g["k"]] if g["basis"] else []
+        rc, err, san = run_esolver(bindir, g["flavour"], wd, list(g["opts"]) + xb + ["-O", os.path.join(wd, "no", "such", "dir", sol), g["fname"]])
         C["runs"] = 1
         C["unwritable-O"] = 1
+        if rc == 0:
+            V.append(("C19|unwritable-O|exit-0", "esolver exits 0 although the solution file could not be written (options %s)" % (list(g["opts"]) + xb)))
         if rc is None or san or rc < 0 or rc == 86:
             cr = run.triage(san or err.decode("latin-1")[-3000:], rc if rc is not None else -9)
             return [("C19|unwritable-O|%s|%s" % (cr["kind"], ">".join(cr["frames"])), "esolver -O <unwritable> died: %s\n%s" % (cr["kind"], cr["text"][:1200]))], C, True
